@@ -69,25 +69,34 @@ instance instNumOpt : Num (Opt K sq) where
 /-- NaN -/
 @[reducible] def nan : Opt K sq := none
 
-@[optsimp] theorem val_add (a b : K) : (val a + val b : Opt K sq) = val (a + b) := rfl
-@[optsimp] theorem val_sub (a b : K) : (val a - val b : Opt K sq) = val (a - b) := rfl
-@[optsimp] theorem val_mul (a b : K) : (val a * val b : Opt K sq) = val (a * b) := rfl
-@[optsimp] theorem val_neg (a : K) : (-(val a) : Opt K sq) = val (-a) := rfl
-@[optsimp] theorem val_zero : (0 : Opt K sq) = val 0 := rfl
-@[optsimp] theorem val_one : (1 : Opt K sq) = val 1 := rfl
-@[optsimp] theorem val_lt (a b : K) : ((val a : Opt K sq) < val b) = (a < b) := rfl
-@[optsimp] theorem val_le (a b : K) : ((val a : Opt K sq) ≤ val b) = (a ≤ b) := rfl
+@[optsimp] theorem val_add (a b : K) : (val a + val b : Opt K sq) = val (a + b) := id rfl
+@[optsimp] theorem val_sub (a b : K) : (val a - val b : Opt K sq) = val (a - b) := id rfl
+@[optsimp] theorem val_mul (a b : K) : (val a * val b : Opt K sq) = val (a * b) := id rfl
+@[optsimp] theorem val_neg (a : K) : (-(val a) : Opt K sq) = val (-a) := id rfl
+@[optsimp] theorem val_zero : (0 : Opt K sq) = val 0 := id rfl
+@[optsimp] theorem val_one : (1 : Opt K sq) = val 1 := id rfl
+/-- comparisons of finite values are the field's comparisons (stated at the `fieldNum` instance so that both sides of a
+definedness theorem carry syntactically the same propositions and `Decidable` instances) -/
+@[optsimp] theorem val_lt (a b : K) : ((val a : Opt K sq) < val b) = (letI := fieldNum K sq; a < b) := id rfl
+@[optsimp] theorem val_le (a b : K) : ((val a : Opt K sq) ≤ val b) = (letI := fieldNum K sq; a ≤ b) := id rfl
+/-- `decide p = true` as the proposition, for *any* `Decidable` instance (the instance is an ordinary implicit argument,
+so that `simp` does not insist on the canonical one: rewriting `val a ≤ val b` to `a ≤ b` by `rfl` keeps the instance) -/
+@[optsimp] theorem decide_eq_true_eq' {p : Prop} {inst : Decidable p} : (@decide p inst = true) = p := by simp
+@[optsimp] theorem decide_eq_false_eq' {p : Prop} {inst : Decidable p} : (@decide p inst = false) = ¬ p := by simp
+attribute [optsimp] Bool.and_eq_true Bool.or_eq_true Bool.not_eq_true' Bool.not_eq_true Bool.true_eq_false
+  Bool.false_eq_true if_true if_false and_true true_and Bool.true_and Bool.and_true Bool.false_and Bool.and_false
+  Bool.true_or Bool.or_true Bool.false_or Bool.or_false Bool.not_true Bool.not_false
 /-- division: NaN exactly when the divisor is zero -/
-@[optsimp] theorem val_div (a b : K) : (val a / val b : Opt K sq) = if b = 0 then nan else val (a / b) := rfl
+@[optsimp] theorem val_div (a b : K) : (val a / val b : Opt K sq) = if b = 0 then nan else val (a / b) := id rfl
 theorem val_div_ne (a b : K) (h : b ≠ 0) : (val a / val b : Opt K sq) = val (a / b) := by
   rw [val_div, if_neg h]
 /-- square root: NaN exactly when the argument is negative -/
-@[optsimp] theorem val_sqrt (a : K) : (Num.sqrt (val a) : Opt K sq) = if a < 0 then nan else val (sq a) := rfl
+@[optsimp] theorem val_sqrt (a : K) : (Num.sqrt (val a) : Opt K sq) = if a < 0 then nan else val (sq a) := id rfl
 theorem val_sqrt_nonneg (a : K) (h : 0 ≤ a) : (Num.sqrt (val a) : Opt K sq) = val (sq a) := by
   rw [val_sqrt, if_neg (not_lt.mpr h)]
-@[optsimp] theorem val_ofRat (q : ℚ) : (Num.ofRat q : Opt K sq) = val (q : K) := rfl
-@[optsimp] theorem val_lit (n : Int) (d : Nat) : (lit n d : Opt K sq) = val ((mkRat n d : ℚ) : K) := rfl
-@[optsimp] theorem val_two : (two : Opt K sq) = val (1 + 1) := rfl
+@[optsimp] theorem val_ofRat (q : ℚ) : (Num.ofRat q : Opt K sq) = val (q : K) := id rfl
+@[optsimp] theorem val_lit (n : Int) (d : Nat) : (lit n d : Opt K sq) = val ((mkRat n d : ℚ) : K) := id rfl
+@[optsimp] theorem val_two : letI := fieldNum K sq; (two : Opt K sq) = val (two : K) := id rfl
 
 theorem val_ite (c : Prop) [Decidable c] (x y : K) :
     (if c then val x else val y : Opt K sq) = val (if c then x else y) := by split_ifs <;> rfl
@@ -115,7 +124,16 @@ theorem val_ite (c : Prop) [Decidable c] (x y : K) :
     by_cases h2 : hi < x
     · rw [if_pos (show (val hi : Opt K sq) < val x from h2), if_pos h2]
     · rw [if_neg (show ¬ (val hi : Opt K sq) < val x from h2), if_neg h2]
-@[optsimp] theorem val_neq (a b : K) : letI := fieldNum K sq; neq (val a : Opt K sq) (val b) = neq a b := rfl
+@[optsimp] theorem val_neq (a b : K) : letI := fieldNum K sq; neq (val a : Opt K sq) (val b) = neq a b := id rfl
+
+/-- close a leaf of a definedness proof: both sides are syntactically the same after pushing `val`/`lift` outward -/
+macro "opt_leaf" : tactic => `(tactic| first | rfl | (simp only [optsimp] <;> rfl))
+
+/-- alternate `split_ifs` and `simp only [optsimp]` until neither makes progress (divisions and square roots unfold to
+`if divisor = 0 then nan else …`, which can only be evaluated after the enclosing branch is known) -/
+macro "opt_steps" : tactic => `(tactic| repeat' (first | split_ifs | (simp only [optsimp])))
+
+attribute [optsimp] fieldNum_sqrt
 
 /-! ## vectors -/
 
@@ -123,25 +141,25 @@ theorem val_ite (c : Prop) [Decidable c] (x y : K) :
 def lift2 (v : V2 K) : V2 (Opt K sq) := ⟨val v.x, val v.y⟩
 def lift3 (v : V3 K) : V3 (Opt K sq) := ⟨val v.x, val v.y, val v.z⟩
 
-@[optsimp] theorem lift3_mk (a b c : K) : (⟨val a, val b, val c⟩ : V3 (Opt K sq)) = lift3 ⟨a, b, c⟩ := rfl
-@[optsimp] theorem lift2_mk (a b : K) : (⟨val a, val b⟩ : V2 (Opt K sq)) = lift2 ⟨a, b⟩ := rfl
-@[optsimp] theorem lift3_x (v : V3 K) : (lift3 v : V3 (Opt K sq)).x = val v.x := rfl
-@[optsimp] theorem lift3_y (v : V3 K) : (lift3 v : V3 (Opt K sq)).y = val v.y := rfl
-@[optsimp] theorem lift3_z (v : V3 K) : (lift3 v : V3 (Opt K sq)).z = val v.z := rfl
-@[optsimp] theorem lift2_x (v : V2 K) : (lift2 v : V2 (Opt K sq)).x = val v.x := rfl
-@[optsimp] theorem lift2_y (v : V2 K) : (lift2 v : V2 (Opt K sq)).y = val v.y := rfl
+@[optsimp] theorem lift3_mk (a b c : K) : (⟨val a, val b, val c⟩ : V3 (Opt K sq)) = lift3 ⟨a, b, c⟩ := id rfl
+@[optsimp] theorem lift2_mk (a b : K) : (⟨val a, val b⟩ : V2 (Opt K sq)) = lift2 ⟨a, b⟩ := id rfl
+@[optsimp] theorem lift3_x (v : V3 K) : (lift3 v : V3 (Opt K sq)).x = val v.x := id rfl
+@[optsimp] theorem lift3_y (v : V3 K) : (lift3 v : V3 (Opt K sq)).y = val v.y := id rfl
+@[optsimp] theorem lift3_z (v : V3 K) : (lift3 v : V3 (Opt K sq)).z = val v.z := id rfl
+@[optsimp] theorem lift2_x (v : V2 K) : (lift2 v : V2 (Opt K sq)).x = val v.x := id rfl
+@[optsimp] theorem lift2_y (v : V2 K) : (lift2 v : V2 (Opt K sq)).y = val v.y := id rfl
 
 section V3
 variable (a b : V3 K) (s : K)
-@[optsimp] theorem lift3_add : letI := fieldNum K sq; (lift3 a : V3 (Opt K sq)).add (lift3 b) = lift3 (a.add b) := rfl
-@[optsimp] theorem lift3_sub : letI := fieldNum K sq; (lift3 a : V3 (Opt K sq)).sub (lift3 b) = lift3 (a.sub b) := rfl
-@[optsimp] theorem lift3_neg : letI := fieldNum K sq; (lift3 a : V3 (Opt K sq)).neg = lift3 a.neg := rfl
-@[optsimp] theorem lift3_smul : letI := fieldNum K sq; (lift3 a : V3 (Opt K sq)).smul (val s) = lift3 (a.smul s) := rfl
-@[optsimp] theorem lift3_cmul : letI := fieldNum K sq; (lift3 a : V3 (Opt K sq)).cmul (lift3 b) = lift3 (a.cmul b) := rfl
-@[optsimp] theorem lift3_dot : letI := fieldNum K sq; (lift3 a : V3 (Opt K sq)).dot (lift3 b) = val (a.dot b) := rfl
-@[optsimp] theorem lift3_normSq : letI := fieldNum K sq; (lift3 a : V3 (Opt K sq)).normSq = val a.normSq := rfl
-@[optsimp] theorem lift3_cross : letI := fieldNum K sq; (lift3 a : V3 (Opt K sq)).cross (lift3 b) = lift3 (a.cross b) := rfl
-@[optsimp] theorem lift3_zero : letI := fieldNum K sq; (V3.zero : V3 (Opt K sq)) = lift3 V3.zero := rfl
+@[optsimp] theorem lift3_add : letI := fieldNum K sq; (lift3 a : V3 (Opt K sq)).add (lift3 b) = lift3 (a.add b) := id rfl
+@[optsimp] theorem lift3_sub : letI := fieldNum K sq; (lift3 a : V3 (Opt K sq)).sub (lift3 b) = lift3 (a.sub b) := id rfl
+@[optsimp] theorem lift3_neg : letI := fieldNum K sq; (lift3 a : V3 (Opt K sq)).neg = lift3 a.neg := id rfl
+@[optsimp] theorem lift3_smul : letI := fieldNum K sq; (lift3 a : V3 (Opt K sq)).smul (val s) = lift3 (a.smul s) := id rfl
+@[optsimp] theorem lift3_cmul : letI := fieldNum K sq; (lift3 a : V3 (Opt K sq)).cmul (lift3 b) = lift3 (a.cmul b) := id rfl
+@[optsimp] theorem lift3_dot : letI := fieldNum K sq; (lift3 a : V3 (Opt K sq)).dot (lift3 b) = val (a.dot b) := id rfl
+@[optsimp] theorem lift3_normSq : letI := fieldNum K sq; (lift3 a : V3 (Opt K sq)).normSq = val a.normSq := id rfl
+@[optsimp] theorem lift3_cross : letI := fieldNum K sq; (lift3 a : V3 (Opt K sq)).cross (lift3 b) = lift3 (a.cross b) := id rfl
+@[optsimp] theorem lift3_zero : letI := fieldNum K sq; (V3.zero : V3 (Opt K sq)) = lift3 V3.zero := id rfl
 @[optsimp] theorem lift3_inf : letI := fieldNum K sq; (lift3 a : V3 (Opt K sq)).inf (lift3 b) = lift3 (a.inf b) := by
   simp only [V3.inf, lift3, val_nmin]
 @[optsimp] theorem lift3_sup : letI := fieldNum K sq; (lift3 a : V3 (Opt K sq)).sup (lift3 b) = lift3 (a.sup b) := by
@@ -152,28 +170,31 @@ variable (a b : V3 K) (s : K)
   simp only [V3.get, lift3]; split_ifs <;> rfl
 @[optsimp] theorem lift3_set (i : Nat) : (lift3 a : V3 (Opt K sq)).set i (val s) = lift3 (a.set i s) := by
   simp only [V3.set, lift3]; split_ifs <;> rfl
-@[optsimp] theorem lift3_center : letI := fieldNum K sq; (lift3 a : V3 (Opt K sq)).center (lift3 b) = lift3 (a.center b) := rfl
+@[optsimp] theorem lift3_center : letI := fieldNum K sq; (lift3 a : V3 (Opt K sq)).center (lift3 b) = lift3 (a.center b) := id rfl
 theorem normSq3_nonneg : letI := fieldNum K sq; 0 ≤ a.normSq := by
   simp only [V3.normSq, V3.dot]; nlinarith [mul_self_nonneg a.x, mul_self_nonneg a.y, mul_self_nonneg a.z]
 /-- `norm` is always defined: the argument of the square root is a sum of squares -/
 @[optsimp] theorem lift3_norm : letI := fieldNum K sq; (lift3 a : V3 (Opt K sq)).norm = val a.norm := by
   simp only [V3.norm, lift3_normSq]; exact val_sqrt_nonneg _ (normSq3_nonneg a)
 /-- componentwise division: NaN exactly when the divisor is zero -/
+@[optsimp] theorem lift3_sdiv_ite : letI := fieldNum K sq;
+    (lift3 a : V3 (Opt K sq)).sdiv (val s) = if s = 0 then ⟨nan, nan, nan⟩ else lift3 (a.sdiv s) := by
+  simp only [V3.sdiv, lift3, val_div]; split_ifs <;> rfl
 theorem lift3_sdiv (h : s ≠ 0) : letI := fieldNum K sq; (lift3 a : V3 (Opt K sq)).sdiv (val s) = lift3 (a.sdiv s) := by
   simp only [V3.sdiv, lift3, val_div_ne _ _ h]
 end V3
 
 section V2
 variable (a b : V2 K) (s : K)
-@[optsimp] theorem lift2_add : letI := fieldNum K sq; (lift2 a : V2 (Opt K sq)).add (lift2 b) = lift2 (a.add b) := rfl
-@[optsimp] theorem lift2_sub : letI := fieldNum K sq; (lift2 a : V2 (Opt K sq)).sub (lift2 b) = lift2 (a.sub b) := rfl
-@[optsimp] theorem lift2_neg : letI := fieldNum K sq; (lift2 a : V2 (Opt K sq)).neg = lift2 a.neg := rfl
-@[optsimp] theorem lift2_smul : letI := fieldNum K sq; (lift2 a : V2 (Opt K sq)).smul (val s) = lift2 (a.smul s) := rfl
-@[optsimp] theorem lift2_cmul : letI := fieldNum K sq; (lift2 a : V2 (Opt K sq)).cmul (lift2 b) = lift2 (a.cmul b) := rfl
-@[optsimp] theorem lift2_dot : letI := fieldNum K sq; (lift2 a : V2 (Opt K sq)).dot (lift2 b) = val (a.dot b) := rfl
-@[optsimp] theorem lift2_normSq : letI := fieldNum K sq; (lift2 a : V2 (Opt K sq)).normSq = val a.normSq := rfl
-@[optsimp] theorem lift2_perp : letI := fieldNum K sq; (lift2 a : V2 (Opt K sq)).perp (lift2 b) = val (a.perp b) := rfl
-@[optsimp] theorem lift2_zero : letI := fieldNum K sq; (V2.zero : V2 (Opt K sq)) = lift2 V2.zero := rfl
+@[optsimp] theorem lift2_add : letI := fieldNum K sq; (lift2 a : V2 (Opt K sq)).add (lift2 b) = lift2 (a.add b) := id rfl
+@[optsimp] theorem lift2_sub : letI := fieldNum K sq; (lift2 a : V2 (Opt K sq)).sub (lift2 b) = lift2 (a.sub b) := id rfl
+@[optsimp] theorem lift2_neg : letI := fieldNum K sq; (lift2 a : V2 (Opt K sq)).neg = lift2 a.neg := id rfl
+@[optsimp] theorem lift2_smul : letI := fieldNum K sq; (lift2 a : V2 (Opt K sq)).smul (val s) = lift2 (a.smul s) := id rfl
+@[optsimp] theorem lift2_cmul : letI := fieldNum K sq; (lift2 a : V2 (Opt K sq)).cmul (lift2 b) = lift2 (a.cmul b) := id rfl
+@[optsimp] theorem lift2_dot : letI := fieldNum K sq; (lift2 a : V2 (Opt K sq)).dot (lift2 b) = val (a.dot b) := id rfl
+@[optsimp] theorem lift2_normSq : letI := fieldNum K sq; (lift2 a : V2 (Opt K sq)).normSq = val a.normSq := id rfl
+@[optsimp] theorem lift2_perp : letI := fieldNum K sq; (lift2 a : V2 (Opt K sq)).perp (lift2 b) = val (a.perp b) := id rfl
+@[optsimp] theorem lift2_zero : letI := fieldNum K sq; (V2.zero : V2 (Opt K sq)) = lift2 V2.zero := id rfl
 @[optsimp] theorem lift2_inf : letI := fieldNum K sq; (lift2 a : V2 (Opt K sq)).inf (lift2 b) = lift2 (a.inf b) := by
   simp only [V2.inf, lift2, val_nmin]
 @[optsimp] theorem lift2_sup : letI := fieldNum K sq; (lift2 a : V2 (Opt K sq)).sup (lift2 b) = lift2 (a.sup b) := by
@@ -184,14 +205,38 @@ variable (a b : V2 K) (s : K)
   simp only [V2.get, lift2]; split_ifs <;> rfl
 @[optsimp] theorem lift2_set (i : Nat) : (lift2 a : V2 (Opt K sq)).set i (val s) = lift2 (a.set i s) := by
   simp only [V2.set, lift2]; split_ifs <;> rfl
-@[optsimp] theorem lift2_center : letI := fieldNum K sq; (lift2 a : V2 (Opt K sq)).center (lift2 b) = lift2 (a.center b) := rfl
+@[optsimp] theorem lift2_center : letI := fieldNum K sq; (lift2 a : V2 (Opt K sq)).center (lift2 b) = lift2 (a.center b) := id rfl
 theorem normSq2_nonneg : letI := fieldNum K sq; 0 ≤ a.normSq := by
   simp only [V2.normSq, V2.dot]; nlinarith [mul_self_nonneg a.x, mul_self_nonneg a.y]
 @[optsimp] theorem lift2_norm : letI := fieldNum K sq; (lift2 a : V2 (Opt K sq)).norm = val a.norm := by
   simp only [V2.norm, lift2_normSq]; exact val_sqrt_nonneg _ (normSq2_nonneg a)
+@[optsimp] theorem lift2_sdiv_ite : letI := fieldNum K sq;
+    (lift2 a : V2 (Opt K sq)).sdiv (val s) = if s = 0 then ⟨nan, nan⟩ else lift2 (a.sdiv s) := by
+  simp only [V2.sdiv, lift2, val_div]; split_ifs <;> rfl
 theorem lift2_sdiv (h : s ≠ 0) : letI := fieldNum K sq; (lift2 a : V2 (Opt K sq)).sdiv (val s) = lift2 (a.sdiv s) := by
   simp only [V2.sdiv, lift2, val_div_ne _ _ h]
 end V2
+
+theorem neq_iff (a b : K) : letI := fieldNum K sq; neq a b = true ↔ a = b := by
+  simp only [neq, Bool.and_eq_true, decide_eq_true_eq]
+  exact ⟨fun ⟨h1, h2⟩ => le_antisymm h1 h2, fun h => ⟨h.le, h.ge⟩⟩
+
+theorem normSq3_eq_zero (v : V3 K) (h : letI := fieldNum K sq; v.normSq = 0) : v.x = 0 ∧ v.y = 0 ∧ v.z = 0 := by
+  simp only [V3.normSq, V3.dot] at h
+  have hx : v.x * v.x = 0 := by nlinarith [mul_self_nonneg v.x, mul_self_nonneg v.y, mul_self_nonneg v.z]
+  have hy : v.y * v.y = 0 := by nlinarith [mul_self_nonneg v.x, mul_self_nonneg v.y, mul_self_nonneg v.z]
+  have hz : v.z * v.z = 0 := by nlinarith [mul_self_nonneg v.x, mul_self_nonneg v.y, mul_self_nonneg v.z]
+  exact ⟨mul_self_eq_zero.mp hx, mul_self_eq_zero.mp hy, mul_self_eq_zero.mp hz⟩
+theorem normSq2_eq_zero (v : V2 K) (h : letI := fieldNum K sq; v.normSq = 0) : v.x = 0 ∧ v.y = 0 := by
+  simp only [V2.normSq, V2.dot] at h
+  have hx : v.x * v.x = 0 := by nlinarith [mul_self_nonneg v.x, mul_self_nonneg v.y]
+  have hy : v.y * v.y = 0 := by nlinarith [mul_self_nonneg v.x, mul_self_nonneg v.y]
+  exact ⟨mul_self_eq_zero.mp hx, mul_self_eq_zero.mp hy⟩
+/-- `f64::EPSILON` and friends are positive -/
+theorem lit_pos (n : Int) (d : Nat) (hn : 0 < n) (hd : 0 < d) : (0 : K) < ((mkRat n d : ℚ) : K) := by
+  have : (0 : ℚ) < mkRat n d := by
+    rw [Rat.mkRat_eq_div]; exact div_pos (by exact_mod_cast hn) (by exact_mod_cast hd)
+  exact_mod_cast this
 
 /-! ## square roots that are divided by -/
 
